@@ -102,6 +102,18 @@ def spaces(tier, seed):
                     lvl0.append({"kind": "one", "m": m, "w": w, "s": s,
                                  "spec": {"ny": ny, "nx": nx, "dmin": a, "dmax": b, "seed": table,
                                           "origin": _origin(k)}})
+    # 12-bit radiometry (bright weakly textured 3000..3297, and full range 0..3960): window statistics whose sums
+    # exceed 2^24; subpix 1 only (at subpix 2 the interpolated float32 samples already differ from a float64
+    # reference by 1e-3 on such values, which is not a defect)
+    hi12 = []
+    for m, w in (("zncc", 3), ("zncc", 5), ("sad", 3), ("census", 3)):
+        for ny, nx in ((w + 2, w + 4), (w + 9, w + 3)):
+            for gain, offset in ((3, 3000), (40, 0)):
+                for a, b in ((-2, 2), (0, 1)):
+                    k += 1
+                    hi12.append({"kind": "one", "m": m, "w": w, "s": 1,
+                                 "spec": {"ny": ny, "nx": nx, "dmin": a, "dmax": b, "seed": seed, "gain": gain,
+                                          "offset": offset, "origin": _origin(k)}})
     # order by interval length over the whole product (simplest first)
     lvl0.sort(key=lambda c: (c["spec"]["dmax"] - c["spec"]["dmin"]))
 
@@ -156,7 +168,9 @@ def spaces(tier, seed):
                         sp[side] = [[r, c, v]]
                         sp["origin"] = _origin(k)
                         mask1.append({"kind": "one", "m": m, "w": w, "s": s, "spec": sp})
-        devs = [(-1, 2), (-2 - big, 1), (0, 0)] + ([(-2 - big, -2 - big), (2, 2)] if thorough else [])
+        # integer bounds, and bounds that are not on the 1/subpix grid (float grids are legal inputs)
+        devs = [(-1, 2), (-2 - big, 1), (0, 0), (-1.5, 1.25), (-0.6, 0.6)] + (
+            [(-2 - big, -2 - big), (2, 2), (-1.75, -0.25)] if thorough else [])
         for r in range(ny):
             for c in range(nx):
                 for mn, mx in devs:
@@ -208,6 +222,7 @@ def spaces(tier, seed):
 
     return [
         {"name": "measure x window x subpix x shape x interval (mono, no mask)", "level": 0, "cases": lvl0},
+        {"name": "12-bit radiometry (bright weakly textured / full range), subpix 1", "level": 1, "cases": hi12},
         {"name": "alphabet images: all 1x2 pairs (w=1), de Bruijn columns (w=3)", "level": 0, "cases": alpha,
          "chunk": 1},
         {"name": "2-band images x selected band x right band order x scalar/constant grid", "level": 1, "cases": bands},
